@@ -347,6 +347,8 @@ NEUTRAL = {
     "C08": [
         ("nt-st1", ST + "patch.rs", "let dst_end = patch.dst_addr + patch.size;", "let dst_end = patch.size + patch.dst_addr;", "state_tree"),
         ("nt-st2", ST + "lib.rs", "let total_size = new_state_skeleton", "/* words of the new layout */ let total_size = new_state_skeleton", "state_tree"),
+        ("nt-wm1", "crates/lib/mimium-lang/src/runtime/wasm/engine.rs", "                        log::info!(\"No state structure change detected, copying buffer\");\n                        next_global_state = old_data.clone();", "                        log::info!(\"No state structure change detected, copying buffer\");\n                        let copied = old_data.clone();\n                        next_global_state = copied;", "state_tree"),
+        ("nt-rs1", "crates/lib/mimium-lang/src/runtime/vm.rs", "            log::info!(\"No state structure change detected. Just copies buffer\");", "            // identical layouts\n            log::info!(\"No state structure change detected. Just copies buffer\");", "state_tree"),
     ],
     "C05": [
         ("nt-vs1", "crates/lib/mimium-lang/src/runtime/vm.rs", "        state_storage.resize(fnproto.state_skeleton.total_size() as usize);", "        let words = fnproto.state_skeleton.total_size() as usize;\n        state_storage.resize(words);", "vm_storage"),
@@ -369,6 +371,8 @@ NEUTRAL = {
     "C17": [
         ("nt-rw1", CQ, "            let new_lhs = convert_expr(ctx, lhs);\n            let new_rhs = convert_expr(ctx, rhs);\n            Expr::BinOp(new_lhs, op, new_rhs).into_id(loc)", "            let l = convert_expr(ctx, lhs);\n            let r = convert_expr(ctx, rhs);\n            Expr::BinOp(l, op, r).into_id(loc)", "resolve_walk"),
         ("nt-rw2", CQ, "        let _ = self.local_bindings.pop();", "        self.local_bindings.pop();", "resolve_walk"),
+        ("nt-rw3", CQ, "        Expr::Proj(e, _) => collect_defined_names(e, names),", "        // projections bind nothing themselves\n        Expr::Proj(e, _) => collect_defined_names(e, names),", "resolve_walk"),
+        ("nt-tp1", "crates/lib/mimium-lang/src/compiler/typing.rs", "                        let type_name = type_path.last().unwrap().to_symbol();\n\n                        // Report error for private type access", "                        let type_name = type_path.last().unwrap().to_symbol();\n\n                        // Report the access to the private type", "type_privacy"),
     ],
     "C20": [
         ("nt-ff1", "crates/lib/mimium-lang/src/runtime/ffi_serde.rs", "            FfiValue::Unit => Value::Unit,\n            FfiValue::Number(n) => Value::Number(n),", "            FfiValue::Number(x) => Value::Number(x),\n            FfiValue::Unit => Value::Unit,", "ffi_serde"),
